@@ -468,6 +468,10 @@ func (i *Iterator) read(
 ) (series telem.Series, err error) {
 	series.DataType = i.Channel.DataType
 	series.TimeRange = i.internal.TimeRange().BoundBy(i.view)
+	if size < 0 {
+		// an empty slice of the domain, never a negative allocation
+		size = 0
+	}
 	series.Data = make([]byte, size)
 	// set the first 32 bits to the domain index, and the last 32 bits to the alignment
 	series.Alignment = alignment
